@@ -143,6 +143,39 @@ void cv_seam_cells(CellVec *c, int res, int nPerEdge) {
     }
 }
 
+/* cells on the border between two coarse cells: for each coarser resolution rc, `per` random coarse cells (and one in a pentagon
+ * base cell), each with one of its neighbours; the cell of `res` containing the point midway between their centres.  Its
+ * neighbours differ from it in the digit of resolution rc (and possibly in the base cell): the carries of every function that
+ * works digit by digit propagate all the way up to rc there. */
+void cv_coarse_boundary_cells(CellVec *c, int res, int per) {
+    int rcs[6] = {0, 1, 2, 3, res - 2, res - 1};
+    for (int q = 0; q < 6; q++) { int rc = rcs[q]; if (rc < 0 || rc >= res || (q >= 4 && rc <= 3)) continue;
+        for (int t = 0; t < per + 3; t++) {
+            /* t = 0: both in one hexagon base cell; 1: in two base cells; 2: next to a pentagon; then random */
+            H3Index C = 0, D = 0;
+            for (int tries = 0; tries < 60 && !D; tries++) {
+                if (t == 2) { H3Index p[12]; getPentagons(rc, p); H3Index d[7] = {0}; gridDisk(p[vt_randn(12)], 1, d); C = d[1 + vt_randn(5)]; if (!C) C = d[1]; }
+                else C = vt_random_cell(rc);
+                H3Index d[7] = {0}; if (gridDisk(C, 1, d)) continue; int st = (int)vt_randn(7);
+                for (int k = 0; k < 7 && !D; k++) { H3Index x = d[(st + k) % 7]; if (!x || x == C) continue;
+                    int same = getBaseCellNumber(x) == getBaseCellNumber(C); H3Index b0; cellToParent(C, 0, &b0);
+                    if (t == 0 && (!same || isPentagon(b0))) continue; if (t == 1 && same && rc > 0) continue; D = x; }
+            }
+            if (!D) continue;
+            LatLng a, b; cellToLatLng(C, &a); cellToLatLng(D, &b);
+            double va[3] = {cos(a.lat) * cos(a.lng), cos(a.lat) * sin(a.lng), sin(a.lat)}, vb[3] = {cos(b.lat) * cos(b.lng), cos(b.lat) * sin(b.lng), sin(b.lat)};
+            /* bisect along the arc from the centre of C to the centre of D for the place where the ancestor at rc changes (the
+               border between index sub-trees is a fractal near, not on, the common edge of the two hexagons) */
+            double lo = 0, hi = 1; H3Index hlo = 0, hhi = 0;
+            for (int it = 0; it < 70; it++) { double tt = it == 0 ? 0 : it == 1 ? 1 : (lo + hi) / 2; double m[3], nn = 0; for (int k = 0; k < 3; k++) { m[k] = (1 - tt) * va[k] + tt * vb[k]; nn += m[k] * m[k]; } nn = sqrt(nn);
+                LatLng g = {asin(m[2] / nn), atan2(m[1], m[0])}; H3Index h = 0, par = 0; if (latLngToCell(&g, res, &h) || cellToParent(h, rc, &par)) break;
+                if (it == 1 && par == C) break;
+                if (par == C) { lo = tt; hlo = h; } else { hi = tt; hhi = h; } }
+            if (hlo) cv_push(c, hlo); if (hhi) cv_push(c, hhi);
+        }
+    }
+}
+
 /* index words built from the documented layout: one non-zero digit d at position p, every other digit 0 (pentagon and
  * hexagon base cells); and random cells followed by a run of centre digits */
 void cv_sparse_digit_cells(CellVec *c, int res, int quick) {
